@@ -55,6 +55,35 @@ def main():
         what = (meta.get('title', '') + ': ' + meta.get('needs_to_manifest', meta.get('what_breaks', '')))[:260].replace('|', '\\|').replace('\n', ' ')
         L.append('| %s | %s | %s | %s | %s |' % (i, meta.get('property'), what, status, first.replace('|', '\\|')))
     L.append('\nDetected by the quick tier: %d of %d seeded changes.\n' % (det, len(ids)))
+    # per-property families, bounds and assumptions as built (read from the spec.py files)
+    import sys
+    sys.path.insert(0, os.path.join(ROOT, 'engine'))
+    import runner
+    L.append('\n### 8.4 Families, bounds and assumptions per property (generated from harness/*/spec.py)\n')
+    fams = []
+    for n in runner.all_families():
+        try:
+            fams.append(runner.Family(n))
+        except Exception as ex:
+            L.append('* family %s: spec.py could not be loaded (%s)' % (n, ex))
+    props = [json.loads(l)['id'] for l in open(os.path.join(ROOT, 'properties.jsonl'))]
+    for pid in props:
+        fs = [f for f in fams if pid in f.properties]
+        if not fs:
+            continue
+        L.append('**%s** - families: %s\n' % (pid, ', '.join('`%s`' % f.name for f in fs)))
+        for f in fs:
+            if pid == 'C02' and f.properties and f.properties[0] != 'C02':
+                continue   # for C02 the participating families run their own bounds with the UB build; listed under their property
+            b = getattr(f.mod, 'BOUNDS', {})
+            for tier in ('quick', 'thorough'):
+                if b.get(tier):
+                    L.append('* `%s` %s: %s' % (f.name, tier, str(b[tier]).replace('\n', ' ')))
+            for a in getattr(f.mod, 'ASSUMPTIONS', []):
+                L.append('  * assumption: %s' % str(a).replace('\n', ' '))
+        if pid == 'C02':
+            L.append('* C02 additionally runs the UB build (`ub=True, nofunc=True`) of: %s' % ', '.join('`%s`' % f.name for f in fs if f.properties and f.properties[0] != 'C02'))
+        L.append('')
     txt = '\n'.join(L)
     p = os.path.join(ROOT, 'DESIGN.md')
     s = open(p).read()
